@@ -98,12 +98,17 @@ func runFile(c *hx.Ctx, r *hx.Rng, st *state) bool {
 	total := 0
 	for s := 0; s < nSeries; s++ {
 		n := 1 + r.Intn(40)
-		switch r.Intn(6) {
+		switch r.Intn(8) {
 		case 0:
 			n = 990 + r.Intn(30) // around one segment
 		case 1:
 			n = 1990 + r.Intn(600) // two to three segments
+		case 2:
+			n = 1 // a series flushed with a single row: one-row segments in every column
+		case 3:
+			n = 1000*(1+r.Intn(2)) + 1 // the last row sits alone in its segment
 		}
+		lastAlone := n == 1 || n%1000 == 1
 		_, ints := genInts(r)
 		_, times := genTimes(r)
 		_, floats := genFloats(r, false)
@@ -154,6 +159,22 @@ func runFile(c *hx.Ctx, r *hx.Rng, st *state) bool {
 				row.cells[2] = fcell{ok: true, i: int64(k)}
 			}
 			rows[k] = row
+		}
+		if lastAlone && r.Chance(70) {
+			// the lone row of the last segment: the values whose payload is short or empty
+			// (the non-null empty string, false, 0, +0.0) or a null
+			last := &rows[n-1]
+			switch r.Intn(4) {
+			case 0:
+				last.cells[3] = fcell{ok: true, s: ""}
+			case 1:
+				last.cells[3] = fcell{ok: true, s: "x"}
+			case 2:
+				last.cells[3] = fcell{}
+				last.cells[2] = fcell{ok: true, i: 0}
+			default:
+				last.cells = [4]fcell{{ok: true, b: false}, {ok: true, f: 0}, {ok: true, i: 0}, {ok: true, s: ""}}
+			}
 		}
 		want[s] = rows
 		total += n
